@@ -1125,7 +1125,7 @@ func runC11(ctx *vh.Ctx) error {
 		return c11Batch(ctx, []*c11Case{&c}, "replay")
 	}
 	quick := !ctx.Thorough()
-	n := ctx.N(70, 1500)
+	n := ctx.N(140, 1500)
 	if err := c11Batch(ctx, c11MisuseCases(), "misuse"); err != nil {
 		return err
 	}
